@@ -399,7 +399,36 @@ func expiry(r *rep.Report) {
 		w.run = append(w.run, op{Op: "addSched", Loc: "A", Id: "s1", Sched: "0 0 1 1 * (ttl 1s)"})
 		ws = append(ws, w)
 	}
+	// a location with scheduled rules and a plain fact that will have expired, unobserved, when it is cleared
+	var cs []*world
+	for _, kind := range drv.Kinds {
+		w, _ := newWorld(kind, true)
+		for i := 1; i <= 5; i++ {
+			id := fmt.Sprintf("c%d", i)
+			w.locs["B"].AddRule(drv.Ctx(), id, core.Map(schedRule("B", id, "0 0 1 1 *", "v1")))
+			w.run = append(w.run, op{Op: "addSched", Loc: "B", Id: id, Sched: "0 0 1 1 *"})
+		}
+		for i := 1; i <= 3; i++ {
+			w.locs["B"].AddFact(drv.Ctx(), fmt.Sprintf("shortlived%d", i), core.Map{"n": float64(i), "ttl": 1.0})
+		}
+		cs = append(cs, w)
+	}
 	time.Sleep(2200 * time.Millisecond)
+	for _, w := range cs {
+		err := w.locs["B"].Clear(drv.Ctx())
+		left, _ := w.locs["B"].StateSize(drv.Ctx())
+		var jobs []string
+		for _, j := range w.rec.Jobs() {
+			if j.Location == "B" {
+				jobs = append(jobs, j.Id)
+			}
+		}
+		r.Case(true, "clear-with-expired"+w.kind)
+		r.Count("clear_with_expired_cases", 1)
+		if err != nil || left != 0 || len(jobs) != 0 {
+			r.Violate("", "clearing a location that holds scheduled rules and expired, not yet observed facts: the clear fails or leaves rules or registrations behind", rep.J{"state": w.kind, "history": w.run, "clear_error": drv.ErrStr(err), "items_left": left, "jobs_still_registered": jobs})
+		}
+	}
 	for _, w := range ws {
 		w.run = append(w.run, op{Op: "expire", Loc: "A", Id: "s1"})
 		_, err := w.locs["A"].GetFact(drv.Ctx(), "s1")
